@@ -370,10 +370,12 @@ pub fn exercise_groups(ex: &mut Explorer, label: &dyn Fn() -> String, bytes: &[u
 
     // --- colour glyphs
     let colors = font.color_glyphs();
+    // every glyph of small fonts: a mutated paint belongs to one particular colour glyph
+    let color_gids: Vec<u32> = if num_glyphs <= 1000 { (0..=num_glyphs).collect() } else { gids.clone() };
     for (ln, loc) in locs.iter().filter(|_| grp.color) {
         let name = format!("paint loc={ln}");
         ex.op(label, &name, &mut || {
-            for g in &gids {
+            for g in &color_gids {
                 if let Some(cg) = colors.get(GlyphId::new(*g)) {
                     let mut p = NullPainter(0);
                     let _ = cg.paint(loc, &mut p);
